@@ -809,20 +809,32 @@ where
     F: Fn(&mut Ctx, &Ev) + Sync,
 {
     let evs: Vec<Ev> = std::mem::take(&mut ctx.mix_used);
-    if evs.is_empty() {
-        return;
-    }
-    let threads = std::cmp::max(2, std::cmp::min(threads, 8));
     let budget = std::cmp::max(
         std::time::Duration::from_millis(1000),
         ctx.start.elapsed() / if ctx.thorough() { 8 } else { 12 },
     );
+    let total = run_events_concurrently(ctx, seed, threads, &evs, budget, f);
+    ctx.bump("mix:concurrent-re-executions", total);
+    ctx.bump("mix:concurrent-threads", std::cmp::max(2, std::cmp::min(threads, 8)) as u64);
+}
+
+/// The engine of `run_mix_concurrent`, usable with any list of events (e.g. a "storm": many calls of one
+/// operation at one size with arguments from a small set, so that different threads ask for the same and for
+/// neighbouring things at the same time).  Every thread executes the whole list in its own shuffled order, starting
+/// together; returns the number of executions.
+pub fn run_events_concurrently<F>(ctx: &mut Ctx, seed: u64, threads: usize, evs: &[Ev], budget: std::time::Duration, f: F) -> u64
+where
+    F: Fn(&mut Ctx, &Ev) + Sync,
+{
+    if evs.is_empty() {
+        return 0;
+    }
+    let threads = std::cmp::max(2, std::cmp::min(threads, 8));
     let barrier = std::sync::Barrier::new(threads);
     let results: std::sync::Mutex<Vec<(Ctx, u64)>> = std::sync::Mutex::new(Vec::new());
     let proto = ctx.child();
     std::thread::scope(|s| {
         for t in 0..threads {
-            let evs = &evs;
             let f = &f;
             let barrier = &barrier;
             let results = &results;
@@ -853,8 +865,7 @@ where
         total += d;
         ctx.merge(c);
     }
-    ctx.bump("mix:concurrent-re-executions", total);
-    ctx.bump("mix:concurrent-threads", threads as u64);
+    total
 }
 
 /// Verdict of a replayed event: prints what the monitors said; exit code 1 when a monitor fired.
